@@ -208,12 +208,25 @@ def run(prop: str, tier: str, seed: int) -> int:
                 q = (base[0] + 6, base[1])      # distance 1.5: exact half
                 if q not in pts:
                     pts.append(q)
+        if rng.random() < 0.3:    # cities that share their coordinates (distance 0 - but 1 under GEO)
+            for _ in range(rng.randint(1, 3)):
+                pts.insert(rng.randrange(len(pts) + 1), rng.choice(pts))
         try:
             cases.append(coords_case(f"pts-{k}", ewt, pts, sc))
             rep.family("coordinates", 1, 1)
             rep.nontrivial += 1
         except ValueError:
             pass      # all points coincide etc.: the instance constructor refuses zero rows
+        if k % 10 == 0:           # GEO: only what is exact - coinciding cities
+            gp = [(rng.randint(-80, 80), rng.randint(-170, 170)) for _ in range(rng.randint(2, 6))]
+            for _ in range(rng.randint(1, 3)):
+                gp.insert(rng.randrange(len(gp) + 1), rng.choice(gp))
+            try:
+                cases.append(coords_case(f"geo-{k}", "GEO", gp, 1))
+                rep.family("coordinates(GEO, coinciding cities)", 1, 1)
+                rep.nontrivial += 1
+            except ValueError:
+                pass
         rep.nontrivial += 2      # the explicit-format case and the write/read case (the coordinate case is counted below)
     # ---- shipped optimal tours
     from moptipyapps.tsp.known_optima import list_resource_tours, opt_tour_from_resource
